@@ -1,14 +1,102 @@
 import ZixModel.Model.Fs
-/-! # C15 — filesystem creation and queries -/
-namespace Zix.C15
-open Zix.Fs Zix.Generated
+import ZixModel.Lemmas.Fs
+/-! # C15 — filesystem creation and queries report and produce the true state
 
-/-- Each S_IF* kind maps to its ZixFileType (regenerated table, by kernel evaluation), anything else
-to UNKNOWN, and a failing stat to NONE. -/
+Property theorems only; helper lemmas live in `ZixModel/Lemmas/Fs.lean`. -/
+namespace Zix.C15
+open Zix.Fs Zix.Generated Zix.Path
+
+/-! ## file types (regenerated table) -/
+
+/-- Each S_IF* kind maps to its ZixFileType (regenerated table, by kernel evaluation), and a
+failing stat to NONE. -/
 theorem file_type_table :
     (sIFKinds.map (fun k => statFileType k.2)) = [1, 2, 3, 4, 5, 6, 7] ∧
     fileTypeNames = [("NONE", 0), ("REGULAR", 1), ("DIRECTORY", 2), ("SYMLINK", 3), ("BLOCK", 4), ("CHARACTER", 5), ("FIFO", 6), ("SOCKET", 7), ("UNKNOWN", 8)] ∧
     sIFKinds.map (·.1) = ["S_IFREG", "S_IFDIR", "S_IFLNK", "S_IFBLK", "S_IFCHR", "S_IFIFO", "S_IFSOCK"] ∧
     fileType none = 0 := by decide
+
+/-- Any other kind of file (a mode whose S_IFMT bits are none of the seven) is UNKNOWN, and the
+permission bits never matter. -/
+theorem file_type_other_unknown (mode : Nat) (h : (mode &&& sIFMT) ∉ sIFKinds.map (·.2)) :
+    statFileType mode = 8 := by
+  exact statFileType_of_not_mem mode h
+
+theorem file_type_ignores_permissions (mode : Nat) : statFileType mode = statFileType (mode &&& sIFMT) := by
+  exact statFileType_mask mode
+
+/-! ## file_equals -/
+
+/-- For two existing files that are not the same inode, `zix_file_equals` is true exactly when
+their bytes are identical — for all contents, every positive page size, and whether or not the
+pages could be allocated. -/
+theorem file_equals_iff_bytes (a b : List Nat) (page : Nat) (hp : 0 < page) (allocOk : Bool) :
+    fileEquals (some a) (some b) false page allocOk = decide (a = b) := by
+  exact fileEquals_some a b page hp allocOk
+
+theorem file_equals_symm (a b : Option (List Nat)) (same : Bool) (page : Nat) (hp : 0 < page) (allocOk : Bool) :
+    fileEquals a b same page allocOk = fileEquals b a same page allocOk := by
+  cases a with
+  | none => cases b <;> rfl
+  | some ca =>
+    cases b with
+    | none => rfl
+    | some cb =>
+      cases same with
+      | true => rfl
+      | false =>
+        rw [fileEquals_some ca cb page hp, fileEquals_some cb ca page hp]
+        exact decide_eq_decide.2 eq_comm
+
+/-- It is false when one of two different paths does not exist. -/
+theorem file_equals_missing_false (a : Option (List Nat)) (same : Bool) (page : Nat) (allocOk : Bool) :
+    fileEquals a none same page allocOk = false ∧ fileEquals none a same page allocOk = false := by
+  constructor
+  · cases a <;> rfl
+  · cases a <;> rfl
+
+/-! ## create_directories over the abstract tree -/
+
+/-- A tree in which every node's parent is a directory, nothing is listed twice, names are real
+names (non-empty, no separator, not "." or ".."), and the working directory is a directory. -/
+structure TreeOK (t : Tree) : Prop where
+  parents : ∀ p k, (p, k) ∈ t.nodes → p ≠ [] ∧ t.kindOf p.dropLast = some .dir
+  names   : ∀ p k, (p, k) ∈ t.nodes → ∀ c ∈ p, c ≠ [] ∧ sep ∉ c ∧ 0 ∉ c ∧ c ≠ [dot] ∧ c ≠ [dot, dot]
+  nodup   : (t.nodes.map (·.1)).Nodup
+  cwdDir  : t.kindOf t.cwd = some .dir
+  cwdNames : ∀ c ∈ t.cwd, c ≠ [] ∧ sep ∉ c ∧ 0 ∉ c ∧ c ≠ [dot] ∧ c ≠ [dot, dot]
+
+/-- `zix_create_directories` only ever adds directories: everything that existed still exists with
+its kind, and everything new is a directory; the tree stays well formed. -/
+theorem mkdirs_only_adds_dirs (t : Tree) (ht : TreeOK t) (s : List Nat) (h0 : 0 ∉ s) :
+    TreeOK (createDirectories t s).1 ∧
+    (∀ p k, (p, k) ∈ t.nodes → (p, k) ∈ (createDirectories t s).1.nodes) ∧
+    (∀ p k, (p, k) ∈ (createDirectories t s).1.nodes → (p, k) ∈ t.nodes ∨ k = .dir) := by
+  by_cases hs : s = []
+  · subst hs
+    have he : createDirectories t [] = (t, 5) := by simp [createDirectories]
+    rw [he]
+    exact ⟨ht, fun _ _ h => h, fun _ _ h => Or.inl h⟩
+  · obtain ⟨h1, h2, h3, _⟩ := createDirectories_spec t ⟨ht.parents, ht.names, ht.nodup, ht.cwdDir, ht.cwdNames⟩ s h0 hs
+    exact ⟨⟨h1.parents, h1.names, h1.nodup, h1.cwdDir, h1.cwdNames⟩, h2, h3⟩
+
+/-- SUCCESS exactly when the path names a directory afterwards, for every path shape (relative or
+absolute, repeated or trailing separators, dot segments, partly existing). -/
+theorem mkdirs_success_iff_dir (t : Tree) (ht : TreeOK t) (s : List Nat) (h0 : 0 ∉ s) (hs : s ≠ []) :
+    (createDirectories t s).2 = 0 ↔ statKind (createDirectories t s).1 s = some .dir := by
+  exact (createDirectories_spec t ⟨ht.parents, ht.names, ht.nodup, ht.cwdDir, ht.cwdNames⟩ s h0 hs).2.2.2
+
+/-- Idempotent: after a success a second call succeeds and changes nothing. -/
+theorem mkdirs_idempotent (t : Tree) (ht : TreeOK t) (s : List Nat) (h0 : 0 ∉ s)
+    (h : (createDirectories t s).2 = 0) :
+    createDirectories (createDirectories t s).1 s = ((createDirectories t s).1, 0) := by
+  exact createDirectories_idem t ⟨ht.parents, ht.names, ht.nodup, ht.cwdDir, ht.cwdNames⟩ s h0 h
+
+/-- The empty path is a bad argument and nothing is created. -/
+theorem mkdirs_empty (t : Tree) : createDirectories t [] = (t, 5) := by
+  simp [createDirectories]
+
+/-! ## non-vacuity -/
+example : (createDirectories ⟨[([[83]], .dir), ([[83], [119]], .dir)], [[83], [119]]⟩ [97, 47, 46, 46, 47, 98, 47]).2 = 0 := by decide
 
 end Zix.C15
